@@ -401,3 +401,49 @@ Theorem C01_parser_compound_assignment_target : forall e x accs,
   accessors e = Some (x, accs) -> target_expr x accs = e.
 Proof. exact target_expr_accessors. Qed.
 Print Assumptions C01_parser_compound_assignment_target.
+
+(* ------------------------------------------------------------------ END TO END (Compile/EndToEnd.v)
+   One statement from the typed program to the evaluated circuit, with only BOOLEAN premises that
+   the extracted checker evaluates per program ([certified] = wt_covered && sem_fuel_enough &&
+   safe_program_ok && params_ok && fuel_enough; [within_gate_bound] = the MAX_GATES test of
+   validation on the pre-build state): the circuit the model of compile.rs returns validates, has
+   one input party per parameter (per element for a single array parameter) of the parameter's size,
+   evaluates on EVERY input of those sizes, and for canonical argument encodings its output reads
+   (EvalPanic::parse) as exactly the value bits or exactly the panic of the source semantics
+   Sem.run_main - or, only for programs with a match lacking an irrefutable arm, Sem.v is stuck on
+   "no arm matches".  Also for the register circuit, and de-duplication is irrelevant. *)
+From GV Require Import Compile.EndToEnd.
+
+Theorem C01_end_to_end : forall fuel dedup P c,
+  certified fuel P = true -> within_gate_bound fuel dedup P = true ->
+  lower_program_with fuel dedup P = Ok (LCircuit c) ->
+  ssa_validate c = None /\ input_gates c = fst (main_wiring P) /\
+  forall ins inp,
+    load_inputs (input_gates c) ins = Some inp ->
+    TSemSemFull.canonical_main_args P (main_args P inp) = true ->
+    exists out, ssa_eval c ins = Some out /\ output_spec fuel P (main_args P inp) out.
+Proof. exact end_to_end. Qed.
+Print Assumptions C01_end_to_end.
+
+Theorem C01_end_to_end_register : forall fuel dedup P c,
+  certified fuel P = true -> within_gate_bound fuel dedup P = true ->
+  lower_program_with fuel dedup P = Ok (LCircuit c) ->
+  exists rc, RegAlloc.convert c = Ok rc /\ Reg.reg_validate rc = Ok None /\ Reg.input_regs rc = fst (main_wiring P) /\
+  forall ins inp,
+    load_inputs (Reg.input_regs rc) ins = Some inp ->
+    TSemSemFull.canonical_main_args P (main_args P inp) = true ->
+    exists out, Reg.reg_eval rc ins = Some out /\ output_spec fuel P (main_args P inp) out.
+Proof. exact end_to_end_register. Qed.
+Print Assumptions C01_end_to_end_register.
+
+Theorem C01_end_to_end_dedup_irrelevant : forall fuel P c1 c2,
+  certified fuel P = true -> within_gate_bound fuel true P = true -> within_gate_bound fuel false P = true ->
+  lower_program_with fuel true P = Ok (LCircuit c1) -> lower_program_with fuel false P = Ok (LCircuit c2) ->
+  input_gates c1 = input_gates c2 /\
+  forall ins inp, load_inputs (input_gates c1) ins = Some inp ->
+    exists out1 out2, ssa_eval c1 ins = Some out1 /\ ssa_eval c2 ins = Some out2 /\
+      parse_panic out1 = parse_panic out2 /\
+      (TSemSemFull.canonical_main_args P (main_args P inp) = true ->
+       output_spec fuel P (main_args P inp) out1 /\ output_spec fuel P (main_args P inp) out2).
+Proof. exact end_to_end_dedup_irrelevant. Qed.
+Print Assumptions C01_end_to_end_dedup_irrelevant.
